@@ -11,6 +11,10 @@ CHECKS = {
             'trusted: CrossHair 0.0.110 + z3 5.1 (self-tested each run), numpy contract shim (validated against numpy each run); bound n<=4 (quick) / 5 (thorough)',
             'DESIGN.md section 4 C18'),
 }
+CHECKS['C01'] = ('CrossHair symbolic execution of whole pipelines (real core.py code) against an eager list reference; one condition per program structure, path tree exhausted; counterexamples replayed on real code with real numpy/pickle/threads',
+                 BOUNDED + ' Programs: every op of a 62-op alphabet at depth 1 (n<=3), op-class pairs at depth 2 (quick) / all pairs + sampled depth 3 (thorough); values, offsets, thresholds, slice bounds, index entries and shuffle permutations are symbolic.',
+                 'trusted: CrossHair + z3, numpy/pickle contract shims (validated each run), serial contract of lazy_parallel_map/single_thread_prefetch (discharged by the E2 checks C04-C07); bounds n<=3/4, depth<=2/3',
+                 'DESIGN.md sections 3 and 4 C01')
 NA = {}
 ALL = [f'C{i:02d}' for i in range(1, 21)]
 for pid in ALL:
